@@ -365,6 +365,23 @@ def rename_walk(toks, ren):
     return out
 
 
+def identification(ren):
+    """merged surfaces identified: the equivalence generated by the map's pairs (a survivor that is itself merged into
+    a third surface is identified with it too) -> {("s", n): representative}"""
+    rep = {}
+
+    def find(x):
+        while rep.get(x, x) != x:
+            x = rep[x]
+        return x
+    for d, s in ren.items():
+        a, b = find(d), find(s)
+        if a != b:
+            rep[max(a, b)] = min(a, b)
+    members = set(ren) | set(ren.values())
+    return {("s", n): find(n) for n in members}
+
+
 def oracle(case, before_text, before, after_text, after, mmap, tol):
     """-> list of failures (kind, detail).  before/after: snapshots of the live objects."""
     fails = []
@@ -396,7 +413,7 @@ def oracle(case, before_text, before, after_text, after, mmap, tol):
         if wa != rename_walk(wb, ren):
             if [t[0] for t in wa] != [t[0] for t in wb]:
                 fails.append(("sense-or-shape-changed", {"cell": cn, "before": wb, "after": wa}))
-            elif not spec.geom_equal(ast_of_walk(wb), ast_of_walk(wa), rename={("s", k): v for k, v in ren.items()}):
+            elif not spec.geom_equal(ast_of_walk(wb), ast_of_walk(wa), rename=identification(ren)):
                 fails.append(("region-changed", {"cell": cn, "before": wb, "after": wa}))
         dang = sorted({int(t[1:]) for t in wa if t[0] in "pm"} - set(after["surfs"]))
         if dang:
@@ -424,7 +441,7 @@ def oracle(case, before_text, before, after_text, after, mmap, tol):
             return fails
         if A["order"] != after["surfs"]:
             fails.append(("file-surfaces", {"file": A["order"], "objects": after["surfs"]}))
-        sren = {("s", k): v for k, v in ren.items()}
+        sren = identification(ren)
         for cn, gb in B["cells"].items():
             ga = A["cells"].get(cn)
             if ga is None or gb is None:
@@ -861,9 +878,21 @@ def attribute_classes(c, r):
     if _FINDINGS is None:
         _FINDINGS = types.SimpleNamespace(prop="C18", findings=vlib.load_findings("C18"))
     out = {}
-    for k in sorted({f[0] for f in r.get("fails", [])}):
+    kinds = sorted({f[0] for f in r.get("fails", [])})
+    if kinds:
+        import findings_C18
+        findings_C18.note_agreement(c, model_agrees(r))
+    for k in kinds:
         out[k] = vlib.Ctx.attribute(_FINDINGS, {"kind": k, "case": c})
     return out
+
+
+def model_agrees(r):
+    """does the real call do what the model says for this very input?  (True when rounding decides a comparison:
+    the exact model cannot be asked)"""
+    if r.get("rounding"):
+        return True
+    return corr_mismatch(r, vlib.model_ask(MODEL, [r["request"]])[0]) is None
 
 
 def work(c):
@@ -949,6 +978,7 @@ def run(ctx):
     if not ok:
         ctx.broken_obligations.append({"obligation": "Model/Dedup.vo builds", "detail": log[-800:]})
         return ctx.finish(vlib.KERNEL_TB, [], "model did not build")
+    vlib.model_ask(MODEL, ["c 1/1 - - -"])          # build the model binary before the workers start
     corpus = corpus_cases()
     cases = [c for _, c in corpus]
     for i in range(n_cases):
